@@ -161,7 +161,7 @@ var chainFunctions map[string]func(parent chainnodeAlias) Node
 var sourceFunctions map[string]func() Node
 var sourceFilters map[string]func([]byte, Node) (Node, error)
 var multiParents map[string]func(chainnodeAlias, []Node) Node
-var influxFunctions map[string]func(chainnodeAlias, string) *InfluxQLNode
+var influxFunctions map[string]func(chainnodeAlias, string, []interface{}) (*InfluxQLNode, error)
 var uniqFunctions map[string]func([]byte, []Node, TypeOf) (Node, error)
 
 func init() {
@@ -211,28 +211,52 @@ func init() {
 		"join":  func(parent chainnodeAlias, nodes []Node) Node { return parent.Join(nodes...) },
 	}
 
-	influxFunctions = map[string]func(chainnodeAlias, string) *InfluxQLNode{
-		"count":         func(parent chainnodeAlias, field string) *InfluxQLNode { return parent.Count(field) },
-		"distinct":      func(parent chainnodeAlias, field string) *InfluxQLNode { return parent.Distinct(field) },
-		"mean":          func(parent chainnodeAlias, field string) *InfluxQLNode { return parent.Mean(field) },
-		"median":        func(parent chainnodeAlias, field string) *InfluxQLNode { return parent.Median(field) },
-		"mode":          func(parent chainnodeAlias, field string) *InfluxQLNode { return parent.Mode(field) },
-		"spread":        func(parent chainnodeAlias, field string) *InfluxQLNode { return parent.Spread(field) },
-		"sum":           func(parent chainnodeAlias, field string) *InfluxQLNode { return parent.Sum(field) },
-		"first":         func(parent chainnodeAlias, field string) *InfluxQLNode { return parent.First(field) },
-		"last":          func(parent chainnodeAlias, field string) *InfluxQLNode { return parent.Last(field) },
-		"min":           func(parent chainnodeAlias, field string) *InfluxQLNode { return parent.Min(field) },
-		"max":           func(parent chainnodeAlias, field string) *InfluxQLNode { return parent.Max(field) },
-		"stddev":        func(parent chainnodeAlias, field string) *InfluxQLNode { return parent.Stddev(field) },
-		"difference":    func(parent chainnodeAlias, field string) *InfluxQLNode { return parent.Difference(field) },
-		"cumulativeSum": func(parent chainnodeAlias, field string) *InfluxQLNode { return parent.CumulativeSum(field) },
-		"percentile":    func(parent chainnodeAlias, field string) *InfluxQLNode { return parent.Percentile(field, 0) },
-		"elapsed":       func(parent chainnodeAlias, field string) *InfluxQLNode { return parent.Elapsed(field, 0) },
-		"movingAverage": func(parent chainnodeAlias, field string) *InfluxQLNode { return parent.MovingAverage(field, 0) },
-		"holtWinters":   func(parent chainnodeAlias, field string) *InfluxQLNode { return parent.HoltWinters(field, 0, 0, 0) },
-		"holtWintersWithFit": func(parent chainnodeAlias, field string) *InfluxQLNode {
-			return parent.HoltWintersWithFit(field, 0, 0, 0)
+	// noArgs wraps the constructor of a function that takes the field only.
+	noArgs := func(f func(chainnodeAlias, string) *InfluxQLNode) func(chainnodeAlias, string, []interface{}) (*InfluxQLNode, error) {
+		return func(parent chainnodeAlias, field string, _ []interface{}) (*InfluxQLNode, error) {
+			return f(parent, field), nil
+		}
+	}
+	// The node is constructed with the arguments read from the JSON document: what the node computes is fixed
+	// when it is constructed, not by the Args it lists.
+	influxFunctions = map[string]func(chainnodeAlias, string, []interface{}) (*InfluxQLNode, error){
+		"count":         noArgs(func(parent chainnodeAlias, field string) *InfluxQLNode { return parent.Count(field) }),
+		"distinct":      noArgs(func(parent chainnodeAlias, field string) *InfluxQLNode { return parent.Distinct(field) }),
+		"mean":          noArgs(func(parent chainnodeAlias, field string) *InfluxQLNode { return parent.Mean(field) }),
+		"median":        noArgs(func(parent chainnodeAlias, field string) *InfluxQLNode { return parent.Median(field) }),
+		"mode":          noArgs(func(parent chainnodeAlias, field string) *InfluxQLNode { return parent.Mode(field) }),
+		"spread":        noArgs(func(parent chainnodeAlias, field string) *InfluxQLNode { return parent.Spread(field) }),
+		"sum":           noArgs(func(parent chainnodeAlias, field string) *InfluxQLNode { return parent.Sum(field) }),
+		"first":         noArgs(func(parent chainnodeAlias, field string) *InfluxQLNode { return parent.First(field) }),
+		"last":          noArgs(func(parent chainnodeAlias, field string) *InfluxQLNode { return parent.Last(field) }),
+		"min":           noArgs(func(parent chainnodeAlias, field string) *InfluxQLNode { return parent.Min(field) }),
+		"max":           noArgs(func(parent chainnodeAlias, field string) *InfluxQLNode { return parent.Max(field) }),
+		"stddev":        noArgs(func(parent chainnodeAlias, field string) *InfluxQLNode { return parent.Stddev(field) }),
+		"difference":    noArgs(func(parent chainnodeAlias, field string) *InfluxQLNode { return parent.Difference(field) }),
+		"cumulativeSum": noArgs(func(parent chainnodeAlias, field string) *InfluxQLNode { return parent.CumulativeSum(field) }),
+		"percentile": func(parent chainnodeAlias, field string, args []interface{}) (*InfluxQLNode, error) {
+			var p float64
+			if err := influxArgs("percentile", args, &p); err != nil {
+				return nil, err
+			}
+			return parent.Percentile(field, p), nil
 		},
+		"elapsed": func(parent chainnodeAlias, field string, args []interface{}) (*InfluxQLNode, error) {
+			var unit time.Duration
+			if err := influxArgs("elapsed", args, &unit); err != nil {
+				return nil, err
+			}
+			return parent.Elapsed(field, unit), nil
+		},
+		"movingAverage": func(parent chainnodeAlias, field string, args []interface{}) (*InfluxQLNode, error) {
+			var window int64
+			if err := influxArgs("movingAverage", args, &window); err != nil {
+				return nil, err
+			}
+			return parent.MovingAverage(field, window), nil
+		},
+		"holtWinters":        unmarshalHoltWinters,
+		"holtWintersWithFit": unmarshalHoltWinters,
 	}
 
 	uniqFunctions = map[string]func([]byte, []Node, TypeOf) (Node, error){
@@ -376,7 +400,14 @@ func (p *Pipeline) unmarshalNode(data []byte, typ TypeOf, parents []Node) (Node,
 		if err != nil {
 			return nil, err
 		}
-		child := infn(chainParent, raw.Field)
+		args, err := unmarshalInfluxArgs(data)
+		if err != nil {
+			return nil, err
+		}
+		child, err := infn(chainParent, raw.Field, args)
+		if err != nil {
+			return nil, err
+		}
 		child.Method = typ.Type
 		err = json.Unmarshal(data, child)
 		if err != nil {
@@ -467,6 +498,49 @@ func unmarshalStats(data []byte, parents []Node, typ TypeOf) (Node, error) {
 	return child, err
 }
 
+// unmarshalInfluxArgs reads the arguments of an InfluxQL node, converted to the types its constructor takes.
+func unmarshalInfluxArgs(data []byte) ([]interface{}, error) {
+	n := new(InfluxQLNode)
+	if err := json.Unmarshal(data, n); err != nil {
+		return nil, err
+	}
+	return n.Args, nil
+}
+
+// influxArgs assigns the arguments to the variables of the constructor's parameter types.
+func influxArgs(method string, args []interface{}, dst ...interface{}) error {
+	if len(args) != len(dst) {
+		return fmt.Errorf("%s expects %d arguments besides the field, got %d", method, len(dst), len(args))
+	}
+	for i, d := range dst {
+		ok := false
+		switch p := d.(type) {
+		case *int64:
+			*p, ok = args[i].(int64)
+		case *float64:
+			*p, ok = args[i].(float64)
+		case *time.Duration:
+			*p, ok = args[i].(time.Duration)
+		case *bool:
+			*p, ok = args[i].(bool)
+		}
+		if !ok {
+			return fmt.Errorf("argument %d of %s has unexpected type %T", i+1, method, args[i])
+		}
+	}
+	return nil
+}
+
+func unmarshalHoltWinters(parent chainnodeAlias, field string, args []interface{}) (*InfluxQLNode, error) {
+	var h, m int64
+	var interval time.Duration
+	var fit bool
+	if err := influxArgs("holtWinters", args, &h, &m, &interval, &fit); err != nil {
+		return nil, err
+	}
+	return parent.holtWinters(field, h, m, interval, fit), nil
+}
+
 func unmarshalTopBottom(data []byte, parents []Node, typ TypeOf) (Node, error) {
 	if len(parents) != 1 {
 		return nil, fmt.Errorf("expected one parent for node %d but found %d", typ.ID, len(parents))
@@ -485,12 +559,23 @@ func unmarshalTopBottom(data []byte, parents []Node, typ TypeOf) (Node, error) {
 	if err != nil {
 		return nil, err
 	}
+	args, err := unmarshalInfluxArgs(data)
+	if err != nil {
+		return nil, err
+	}
+	var num int64
+	if len(args) == 0 {
+		return nil, fmt.Errorf("%s node %d has no number of points", typ.Type, typ.ID)
+	}
+	if err := influxArgs(typ.Type, args[:1], &num); err != nil {
+		return nil, err
+	}
 	var child *InfluxQLNode
 	switch typ.Type {
 	case "top":
-		child = chainParent.Top(0, raw.Field, raw.Tags...)
+		child = chainParent.Top(num, raw.Field, raw.Tags...)
 	case "bottom":
-		child = chainParent.Bottom(0, raw.Field, raw.Tags...)
+		child = chainParent.Bottom(num, raw.Field, raw.Tags...)
 	default:
 		return nil, fmt.Errorf("expected top or bottom node but found %s", typ.Type)
 	}
